@@ -26,15 +26,16 @@ Lemma dir_sb bsize s rs j : dir_ok bsize s rs -> j <= len s / (8 * bsize) ->
   nthN (rs_superblocks rs) j = Some (W bsize s (len s + bsize) j).
 Proof. intros (_ & H & _) Hj. now apply H. Qed.
 
-Lemma rss_rank_block_ok bsize s rs c i : bsz bsize -> dir_ok bsize s rs -> c <= 3 -> i <= len s ->
-  rss_rank_block bsize rs c i = Val (rk s c (i / bsize * bsize)).
+Lemma rss_rank_block_ok bsize s rs c i : bsz bsize -> len s < RSQ_MAXN -> dir_ok bsize s rs -> c <= 3 ->
+  i <= len s -> rss_rank_block bsize rs c i = Val (rk s c (i / bsize * bsize)).
 Proof.
-  intros Hb Hd Hc Hi. unfold rss_rank_block, rss_superblock_index, rss_block_index.
+  intros Hb Hn Hd Hc Hi. rewrite RSQ_MAXN_val in Hn.
+  assert (H43 : len s < 2 ^ 43) by (norm_pow; lia). unfold rss_rank_block, rss_superblock_index, rss_block_index.
   replace (c <=? 3) with true by lia. cbn [odebug_assert bind].
   rewrite RS_BLOCKS_IN_SB_val, RANK_BLOCK_MASK_val, land7, (N.mul_comm bsize 8).
   assert (Hj : i / (8 * bsize) <= len s / (8 * bsize)) by (destruct Hb as [-> | ->]; lia).
   unfold uidx. rewrite (dir_sb bsize s rs _ Hd Hj). cbn [bind]. unfold W.
-  rewrite sb_get_rank_rec; [|exact Hc|now apply fld_bound|destruct Hb as [-> | ->]; lia].
+  rewrite sb_get_rank_rec; [|exact Hc|now apply fld_bound|destruct Hb as [-> | ->]; lia|now apply rk_lt44].
   f_equal. set (J := i / (8 * bsize)). set (b := (i / bsize) mod 8).
   assert (E : J * (8 * bsize) + b * bsize = i / bsize * bsize) by (subst J b; destruct Hb as [-> | ->]; lia).
   destruct (N.eqb_spec b 0) as [Hz|Hnz].
@@ -90,26 +91,27 @@ Proof.
       rewrite HS in L1 by lia. lia.
 Qed.
 
-Lemma rsq_rank_unchecked_ok bsize q s rs os c i : bsz bsize -> qvb_inv q s -> dir_ok bsize s rs ->
+Lemma rsq_rank_unchecked_ok bsize q s rs os c i : bsz bsize -> len s < RSQ_MAXN -> qvb_inv q s ->
+  dir_ok bsize s rs ->
   c <= 3 -> i <= len s -> rsq_rank_unchecked bsize (mk_rsq q rs os) c i = Val (rk s c i).
 Proof.
-  intros Hb Hq Hd Hc Hi. unfold rsq_rank_unchecked. replace (c <=? 3) with true by lia.
-  cbn [odebug_assert bind rsq_rs]. rewrite (rss_rank_block_ok bsize s rs c i Hb Hd Hc Hi). cbn [bind].
+  intros Hb Hn Hq Hd Hc Hi. unfold rsq_rank_unchecked. replace (c <=? 3) with true by lia.
+  cbn [odebug_assert bind rsq_rs]. rewrite (rss_rank_block_ok bsize s rs c i Hb Hn Hd Hc Hi). cbn [bind].
   rewrite (rsq_rank_intra_ok bsize q s rs os c i Hb Hq Hc Hi). cbn [bind]. f_equal.
   pose proof (rk_mono s c (i / bsize * bsize) i) as M.
   assert (i / bsize * bsize <= i) by (destruct Hb as [-> | ->]; lia). lia.
 Qed.
 
-Lemma rsq_rank_ok bsize q s rs os c i : bsz bsize -> qvb_inv q s -> dir_ok bsize s rs ->
+Lemma rsq_rank_ok bsize q s rs os c i : bsz bsize -> len s < RSQ_MAXN -> qvb_inv q s -> dir_ok bsize s rs ->
   rsq_rank bsize (mk_rsq q rs os) c i =
   Val (if (c <=? 3) && (i <=? len s) then Some (rank_spec s c i) else None).
 Proof.
-  intros Hb Hq Hd. unfold rsq_rank, rsq_len. cbn [rsq_qv]. rewrite (qv_len_inv q s Hq).
+  intros Hb Hn Hq Hd. unfold rsq_rank, rsq_len. cbn [rsq_qv]. rewrite (qv_len_inv q s Hq).
   destruct (N.leb_spec c 3) as [Hc|Hc]; [|now replace (3 <? c) with true by lia].
   replace (3 <? c) with false by lia. cbn [orb andb].
   destruct (N.leb_spec i (len s)) as [Hi|Hi]; [|now replace (len s <? i) with true by lia].
   replace (len s <? i) with false by lia.
-  rewrite (rsq_rank_unchecked_ok bsize q s rs os c i Hb Hq Hd Hc Hi). cbn [bind].
+  rewrite (rsq_rank_unchecked_ok bsize q s rs os c i Hb Hn Hq Hd Hc Hi). cbn [bind].
   now rewrite rank_spec_rk.
 Qed.
 
